@@ -111,6 +111,10 @@ func (w *moduleService) stop(_ error) error {
 
 		err = services.StopAndAwaitTerminated(context.Background(), w.service)
 	} else {
+		// The service has stopped (or is stopping) by itself, e.g. because its running function returned.
+		// Wait until it has finished stopping: this module must not be reported as stopped, and the modules
+		// it depends on must not be stopped, while its stopping function is still executing.
+		_ = w.service.AwaitTerminated(context.Background())
 		err = w.service.FailureCase()
 	}
 
